@@ -276,6 +276,25 @@ class Site:
                 if all_return(s.body):
                     return ast.IfExp(L(s.test), to_expr(s.body, lets), to_expr(list(s.orelse) + rest, lets))
                 return ast.IfExp(L(s.test), to_expr(list(s.body) + rest, lets), to_expr(list(s.orelse) + rest, lets))
+            if isinstance(s, ast.For) and not s.orelse and s.body and isinstance(s.body[-1], ast.If) and not s.body[-1].orelse \
+                    and len(s.body[-1].body) == 1 and isinstance(s.body[-1].body[0], ast.Return):
+                # search loop:  for x in it: [lets]; if c: return e      ->   e if any(c for x in it) else <rest>
+                inner = dict(lets)
+                for b in s.body[:-1]:
+                    if isinstance(b, ast.Assign) and len(b.targets) == 1 and isinstance(b.targets[0], ast.Name):
+                        inner[rename.get(b.targets[0].id, b.targets[0].id)] = _Subst(inner, {}).visit(S(b.value))
+                    elif isinstance(b, (ast.Assert, ast.Pass)) or (isinstance(b, ast.Expr) and isinstance(b.value, ast.Constant)):
+                        continue
+                    else:
+                        raise CannotInline("statement in a search loop")
+                cond = _Subst(inner, {}).visit(S(s.body[-1].test))
+                gen = ast.GeneratorExp(cond, [ast.comprehension(S(s.target), L(s.iter), [], 0)])
+                found = s.body[-1].body[0].value
+                hit = _Subst(inner, {}).visit(S(found)) if found is not None else ast.Constant(None)
+                if any(isinstance(n, ast.Name) and isinstance(n.ctx, ast.Load) and n.id in
+                       {x.id for x in ast.walk(S(s.target)) if isinstance(x, ast.Name)} for n in ast.walk(hit)):
+                    raise CannotInline("the found element is returned")
+                return ast.IfExp(ast.Call(ast.Name("any", ast.Load()), [gen], []), hit, to_expr(rest, lets))
             raise CannotInline(f"{type(s).__name__} in expression helper")
 
         e = to_expr(_body(self.callee), {})
@@ -410,6 +429,13 @@ def _lower_structured(stmts: list[ast.stmt], ret) -> list[ast.stmt]:
                 return [ast.Try(go(list(s.body), None) or [ast.Pass()], hs, [], list(s.finalbody))]
             if isinstance(s, ast.With) and not rest and k is None:
                 return [ast.With(s.items, go(list(s.body), None) or [ast.Pass()])]
+            if isinstance(s, (ast.While, ast.For)) and len(rest) == 1 and isinstance(rest[0], ast.Return) and k is None \
+                    and not s.orelse and _returns_at_loop_level(s):
+                # search loop followed by the default result: the default goes to the loop's else clause
+                s2 = copy.deepcopy(s)
+                _returns_to_breaks(s2.body, ret)
+                s2.orelse = ret(rest[0].value) or [ast.Pass()]
+                return [s2]
             if isinstance(s, (ast.While, ast.For)) and not rest and k is None and not s.orelse and _returns_at_loop_level(s):
                 # the loop is the last statement of the helper: `return e` = deliver e and leave the loop
                 s2 = copy.deepcopy(s)
